@@ -127,6 +127,9 @@ func assembleCoff(c *CoffCase) (obj, flat []byte, skip string) {
 		if strings.Contains(d, "declared but not found in symbol table") {
 			continue // an undefined GLOBAL is recorded as an undefined symbol; the warning is by design
 		}
+		if asm.IsWarning(d) {
+			continue // a warning does not take a program out of C08/C09's domain: the object must still be right
+		}
 		extra = append(extra, d)
 	}
 	if r.Failed() || len(extra) > 0 {
